@@ -28,6 +28,8 @@ type Obligation struct {
 	// hypothesis selection (sound: dropping hypotheses only weakens what can be proved)
 	Only []string // if non-nil: keep only labelled hypotheses whose label has one of these prefixes
 	Hide []string // drop labelled hypotheses with these prefixes
+	vc    *VC           // the VC (path run) this obligation was generated in
+	Parts []*Obligation // path-split functions: the same obligation on each explored path; all must hold
 }
 
 func (o *Obligation) dropLabel(l string) bool {
@@ -112,11 +114,25 @@ type VC struct {
 	rangeIdx  []rangeInfo
 	entry     *State
 	lemmaName string
+	lemmaSpec *SpecInfo
 	canary    *Obligation
+	conds     []condRec
+	heapTrace *[]heapRead
+	opReads   map[*FuncInfo][]heapRead
+	revealed  map[string]bool
+	oracle    *pathOracle
+	posCount  map[string]int
+	loopOld   map[types.Object]Val
 	guardSeen map[string]bool
 	acquired  map[string]bool
 	inAtomic  int
 	curPos    token.Pos
+}
+
+// condRec: a branch condition (named boolean) and the trace position at which it became defined
+type condRec struct {
+	term   string
+	traceN int
 }
 
 type frame struct {
@@ -220,20 +236,37 @@ func (vc *VC) oblige(st *State, kind string, clause string, pos token.Pos, goal 
 	}
 	vc.counts[base]++
 	name := base
-	if kind == "index" || kind == "nil" || kind == "pre" || kind == "lock" || kind == "div" || kind == "panic" || kind == "blocking" || vc.counts[base] > 1 {
+	if vc.oracle != nil && autoKinds[kind] {
+		// path-split mode: automatically generated obligations are named by source position so that the
+		// same site gets the same name on every path
+		pk := base + "@" + vc.prog.pos(pos)
+		if vc.posCount == nil {
+			vc.posCount = map[string]int{}
+		}
+		vc.posCount[pk]++
+		name = pk
+		if vc.posCount[pk] > 1 {
+			name = fmt.Sprintf("%s.%d", pk, vc.posCount[pk])
+		}
+	} else if kind == "index" || kind == "nil" || kind == "pre" || kind == "lock" || kind == "div" || kind == "panic" || kind == "blocking" || vc.counts[base] > 1 {
 		name = fmt.Sprintf("%s#%d", base, vc.counts[base])
 	}
 	if goal == "true" {
 		// trivially discharged; still recorded so that the obligation exists
 	}
 	o := &Obligation{Name: name, Func: fk, Kind: kind, Pos: vc.prog.pos(pos), DeclN: len(vc.decls), TraceN: len(vc.trace),
-		PC: st.pc, Goal: goal, Desc: desc}
+		PC: st.pc, Goal: goal, Desc: desc, vc: vc}
 	vc.applySelection(o, kind, clause)
 	vc.obls = append(vc.obls, o)
 	return o
 }
 
 func (vc *VC) query(o *Obligation, model bool) string {
+	return vc.queryWith(o, model, "")
+}
+
+// queryWith: the query of an obligation with an extra assumption (used for case splits).
+func (vc *VC) queryWith(o *Obligation, model bool, extra string) string {
 	var b strings.Builder
 	b.WriteString("; obligation " + o.Name + " at " + o.Pos + "\n")
 	if o.Desc != "" {
@@ -253,10 +286,16 @@ func (vc *VC) query(o *Obligation, model bool) string {
 			b.WriteString("; hidden hypothesis [" + l + "]\n")
 			continue
 		}
+		if l := vc.labels[i]; strings.HasPrefix(l, "call.") && strings.Contains(l[strings.LastIndex(l, ".")+1:], "frame_") {
+			b.WriteString("; [frame] " + l + "\n")
+		}
 		b.WriteString(t)
 		b.WriteByte('\n')
 	}
 	b.WriteString(fmt.Sprintf("(assert %s)\n", o.PC))
+	if extra != "" {
+		b.WriteString(fmt.Sprintf("(assert %s)\n", extra))
+	}
 	b.WriteString(fmt.Sprintf("(assert (not %s))\n", o.Goal))
 	b.WriteString("(check-sat)\n")
 	if model {
@@ -485,4 +524,20 @@ func (vc *VC) applySelection(o *Obligation, kind, clause string) {
 			}
 		}
 	}
+}
+
+// pathOracle forces branch decisions so that one control-flow path is executed per run (path-split mode).
+type pathOracle struct {
+	forced []bool
+	taken  []bool
+}
+
+func (o *pathOracle) next() bool {
+	i := len(o.taken)
+	c := true
+	if i < len(o.forced) {
+		c = o.forced[i]
+	}
+	o.taken = append(o.taken, c)
+	return c
 }
